@@ -161,6 +161,25 @@ def worker(case):
         top.add_child(x, position=0)
         top.add_cable(s.Cable(name=old_c.name.swapcase() if old_c.name.swapcase() != old_c.name else old_c.name + "-"), position=0)
         top.cables[0].create_wire()
+    if kind == "api" and case[2] == "copies-added-after-export":
+        # exported once (every element now carries an identifier); then instances and cables are cloned inside their
+        # definition and cells inside their library, under new names: the copies carry their originals' identifiers
+        with core.quiet():
+            s.compose(n, os.path.join(scratch, "first_%d.edf" % os.getpid()))
+        for lib in list(n.libraries):
+            for d in list(lib.definitions):
+                for x in list(d.children)[:2]:
+                    y = x.clone()
+                    y.name = x.name + "_copy"
+                    d.add_child(y)
+                for c in list(d.cables)[:2]:
+                    c2 = c.clone()
+                    c2.name = c.name + "_copy"
+                    d.add_cable(c2)
+            if lib.definitions:
+                d2 = lib.definitions[0].clone()
+                d2.name = lib.definitions[0].name + "_copy"
+                lib.add_definition(d2)
     if kind == "api" and case[2] == "library-appended-after-export":
         # exported once; then a new library is appended (it comes *after* its user in the netlist) and the top
         # cell instantiates one of its cells
@@ -225,6 +244,7 @@ def cases(tier):
                 out.append(("api", base, vi, order))
         out.append(("api", base, "edited-after-export", "asc"))
         out.append(("api", base, "library-appended-after-export", "asc"))
+        out.append(("api", base, "copies-added-after-export", "asc"))
     for desc in design.family_hier(tier, variants=("plain", "two-libraries", "dangling-nets")):
         if tier == "thorough" or desc[0] in ("K1-chain2", "K8-bus", "K4-wire-only") or sum(desc[1]) % 11 == 0:
             out.append(("hier", desc, "asc"))
